@@ -579,4 +579,5 @@ func TestReplayC20(t *testing.T) {
 	if len(fails) > 0 {
 		t.Fatalf("%s", strings.Join(fails, "\n"))
 	}
+	replayFlood(t)
 }
